@@ -288,4 +288,23 @@ def indentBalance : Nat → List Tok → Option Nat
   | b, .dedent :: ts => if b = 0 then none else indentBalance (b - 1) ts
   | b, _ :: ts => indentBalance b ts
 
+/-- "at the start of a logical line" after a token: after NEWLINE / INDENT / DEDENT; comments and
+    non-logical newlines do not change it; any other token ends it -/
+def lineStartStep (ls : Bool) : Tok → Bool
+  | .newline | .indent | .dedent => true
+  | .comment _ | .nonLogicalNewline => ls
+  | _ => false
+
+/-- INDENT and DEDENT tokens occur only at the start of a logical line -/
+def DentsAtLineStart : Bool → List Tok → Prop
+  | _, [] => True
+  | ls, t :: ts => ((t = .indent ∨ t = .dedent) → ls = true) ∧ DentsAtLineStart (lineStartStep ls t) ts
+
+/-- every `NonLogicalNewline` token stands inside brackets or on a line that so far holds no token
+    (a blank line): bracket depth `d` and "at the start of a logical line" `ls` are counted from the
+    tokens in front of it -/
+def NlnPlacement : Nat → Bool → List Tok → Prop
+  | _, _, [] => True
+  | d, ls, t :: ts => (t = .nonLogicalNewline → 0 < d ∨ ls = true) ∧ NlnPlacement (depthStep d t) (lineStartStep ls t) ts
+
 end PV.C05
